@@ -48,6 +48,7 @@ package help
 //@ func OptionList$1
 //@   props C18 C19
 //@   requires list.opt: opt != nil
+//@   requires list.width: 0 <= synopsisLength && synopsisLength <= 72057594037927936
 //@   modifies
 //@   ensures list.mentions {C18}: contains(result, opt.HelpSynopsis)
 //@   ensures list.default {C18}: !opt.IsRequired ==> contains(result, "(default: " ++ opt.DefaultStr)
@@ -94,13 +95,20 @@ package help
 //@   allocates []*option.Option, SynopsisArg
 //@   modifies
 //@   loop "for _, opt := range options"
+//@     invariant part.width: 0 <= synopsisLength && synopsisLength <= 72057594037927936
 //@     invariant part.ok: OptsListOK(requiredOptions) && OptsListOK(normalOptions)
 //@     invariant part.req {C18}: forall j int :: 0 <= j && j <= $idx && options[j].IsRequired ==> inseq(options[j], requiredOptions)
 //@     invariant part.norm {C18}: forall j int :: 0 <= j && j <= $idx && !options[j].IsRequired ==> inseq(options[j], normalOptions)
 //@     invariant part.kinds: (forall j int :: 0 <= j && j < len(requiredOptions) ==> requiredOptions[j].IsRequired) && (forall j int :: 0 <= j && j < len(normalOptions) ==> !normalOptions[j].IsRequired)
+//@   loop "for _, arg := range args"@1
+//@     invariant args.width: 0 <= synopsisLength && synopsisLength <= 72057594037927936
+//@   loop "for _, arg := range args"@2
+//@     invariant args2.width: 0 <= synopsisLength && synopsisLength <= 72057594037927936
 //@   loop "for _, option := range requiredOptions"
+//@     invariant req.width: 0 <= synopsisLength && synopsisLength <= 72057594037927936
 //@     invariant req.kinds: OptsListOK(requiredOptions) && OptsListOK(normalOptions) && (forall j int :: 0 <= j && j < len(normalOptions) ==> !normalOptions[j].IsRequired)
 //@     step req.entry {C18}: contains(out, requiredOptions[$idx].HelpSynopsis) && hasprefix(out, old_iter(out))
 //@   loop "for _, option := range normalOptions"
+//@     invariant norm.width: 0 <= synopsisLength && synopsisLength <= 72057594037927936
 //@     invariant norm.kinds: OptsListOK(normalOptions) && (forall j int :: 0 <= j && j < len(normalOptions) ==> !normalOptions[j].IsRequired)
 //@     step norm.entry {C18}: contains(out, normalOptions[$idx].HelpSynopsis) && contains(out, "(default: " ++ normalOptions[$idx].DefaultStr) && hasprefix(out, old_iter(out))
